@@ -73,6 +73,8 @@ def const_expr(c):
     ty = c.get("ty", "?")
     if "int" in c:
         return ("c", ty, int(c["int"]))
+    if "tyconst" in c:
+        return ("cparam", c["tyconst"])
     if "str" in c:
         return ("c", ty, c["str"])
     if "bytes" in c:
@@ -258,6 +260,9 @@ class Walker:
                     r = va << vb
                 elif base == "Shr" and vb < 128:
                     r = va >> vb
+                cmpr = {"Eq": va == vb, "Ne": va != vb, "Lt": va < vb, "Le": va <= vb, "Gt": va > vb, "Ge": va >= vb}.get(op)
+                if cmpr is not None:
+                    return ("c", "bool", int(cmpr))
                 if r is not None and r < (1 << 64):
                     if op.endswith("WithOverflow"):
                         return ("agg", "tuple", "", "", 0, (("c", "int", r), ("c", "bool", 0)))
@@ -335,6 +340,17 @@ class Walker:
                 self._finish(st, ("loop", bi))
                 return
             st["blocks"].append(bi)
+            if bi in self.cfg.loops:
+                # loop header: the path through the body stands for an arbitrary iteration, so
+                # everything the loop assigns is unknown here (sound one-iteration abstraction)
+                locs, store = self.cfg.loop_assigned(bi)
+                for l in locs:
+                    if l in st["env"] and l > self.argc:
+                        st["env"][l] = ("lv", l, bi, self.locals[l].get("name") or "")
+                    elif l in st["env"]:
+                        st["env"][l] = ("lv", l, bi, self.locals[l].get("name") or "")
+                if store:
+                    st["heap"] = {}
             bb = self.blocks[bi]
             for s in bb["s"]:
                 if s["k"] == "assign":
@@ -654,6 +670,10 @@ def show(e, depth=0):
         return e[2]
     if k == "l":
         return "_%d" % e[1]
+    if k == "lv":
+        return "%s@loop" % (e[3] or ("_%d" % e[1]))
+    if k == "cparam":
+        return e[1]
     if k == "call":
         return "%s(%s)" % (_short(e[1]), ", ".join(show(a, d) for a in e[2]))
     if k == "f":
